@@ -352,6 +352,115 @@ func nameOf(der []byte, which int) ([]byte, error) {
 	return kids[idx].full, nil
 }
 
+// decodeTime reads a DER UTCTime / GeneralizedTime with seconds and "Z" (the
+// only forms RFC 5280 allows): UTCTime years 50..99 are 19xx, 00..49 are 20xx.
+func decodeTime(t tlv) (time.Time, bool, error) {
+	s := string(t.content)
+	num := func(a, b int) int {
+		v := 0
+		for _, ch := range s[a:b] {
+			if ch < '0' || ch > '9' {
+				return -1 << 20
+			}
+			v = v*10 + int(ch-'0')
+		}
+		return v
+	}
+	var year, o int
+	switch {
+	case t.tag == 0x17 && len(s) == 13 && s[12] == 'Z':
+		year = num(0, 2)
+		if year >= 50 {
+			year += 1900
+		} else {
+			year += 2000
+		}
+		o = 2
+	case t.tag == 0x18 && len(s) == 15 && s[14] == 'Z':
+		year, o = num(0, 4), 4
+	default:
+		return time.Time{}, false, fmt.Errorf("harness DER reader: time %q (tag %02x) is not in the RFC 5280 form", s, t.tag)
+	}
+	mo, d, hh, mi, ss := num(o, o+2), num(o+2, o+4), num(o+4, o+6), num(o+6, o+8), num(o+8, o+10)
+	if year < 0 || mo < 1 || mo > 12 || d < 1 || d > 31 || hh < 0 || hh > 23 || mi < 0 || mi > 59 || ss < 0 || ss > 59 {
+		return time.Time{}, false, fmt.Errorf("harness DER reader: bad time %q", s)
+	}
+	return time.Date(year, time.Month(mo), d, hh, mi, ss, 0, time.UTC), t.tag == 0x17, nil
+}
+
+// checkTimeEncoding: the element must say exactly want (whole seconds) and be a
+// UTCTime exactly for the years 1950..2049 (RFC 5280 4.1.2.5).
+func checkTimeEncoding(what string, t tlv, want time.Time) error {
+	got, utc, err := decodeTime(t)
+	if err != nil {
+		return fmt.Errorf("%s: %v", what, err)
+	}
+	want = want.UTC().Truncate(time.Second)
+	if !got.Equal(want) {
+		return fmt.Errorf("%s: the DER says %s (%q), the template %s", what, got.Format(time.RFC3339), t.content, want.Format(time.RFC3339))
+	}
+	if y := want.Year(); utc != (y >= 1950 && y <= 2049) {
+		return fmt.Errorf("%s: %s is encoded as %s", what, want.Format(time.RFC3339), map[bool]string{true: "UTCTime", false: "GeneralizedTime"}[utc])
+	}
+	return nil
+}
+
+// tbsChildren returns the elements of the to-be-signed SEQUENCE.
+func tbsChildren(der []byte) ([]tlv, error) {
+	so, err := splitSigned(der)
+	if err != nil {
+		return nil, err
+	}
+	t, _, err := readTLV(so.tbs, 0)
+	if err != nil {
+		return nil, err
+	}
+	return children(t.content)
+}
+
+// certValidityOf returns the two time elements of a certificate.
+func certValidityOf(der []byte) (nb, na tlv, err error) {
+	kids, err := tbsChildren(der)
+	if err != nil {
+		return
+	}
+	idx := 3
+	if len(kids) > 0 && kids[0].tag == 0xa0 {
+		idx = 4
+	}
+	if len(kids) <= idx || kids[idx].tag != 0x30 {
+		return nb, na, errDER
+	}
+	v, err := children(kids[idx].content)
+	if err != nil || len(v) != 2 {
+		return nb, na, errDER
+	}
+	return v[0], v[1], nil
+}
+
+// crlTimesOf returns thisUpdate, nextUpdate and the revocation time elements of a v2 CRL.
+func crlTimesOf(der []byte) (this, next tlv, revoked []tlv, err error) {
+	kids, err := tbsChildren(der)
+	if err != nil || len(kids) < 5 || kids[0].tag != 0x02 {
+		return this, next, nil, errDER
+	}
+	this, next = kids[3], kids[4]
+	if len(kids) > 5 && kids[5].tag == 0x30 {
+		entries, err := children(kids[5].content)
+		if err != nil {
+			return this, next, nil, err
+		}
+		for _, e := range entries {
+			f, err := children(e.content)
+			if err != nil || len(f) < 2 {
+				return this, next, nil, errDER
+			}
+			revoked = append(revoked, f[1])
+		}
+	}
+	return
+}
+
 // ---------------------------------------------------------------- independent verifier
 
 const (
